@@ -15,7 +15,12 @@ The model follows the code mechanism by mechanism:
 * `Buffer.elaborate`: `invert = sum(bit << idx …)`, `o_inv = o ^ invert`, `i = i_inv ^ invert`
   (both skipped when the mask is zero), the simulation-port branch with its bit-by-bit loop-back
   `Mux(oe_bit, o_bit, i_bit)` and `oe.replicate(len(port))`;
-* `FFBuffer.elaborate`: `i_ff`, `o_ff`, `oe_ff` around an inner `Buffer`;
+* `FFBuffer.elaborate`: `i_ff`, `o_ff`, `oe_ff` around an inner `Buffer` — on a simulation port
+  (`FFBuffer.step/out/run`) and on a real port (`FFBuffer.realStep/realOut/realRun`: the inner
+  `Buffer` is the only source of `IOBufferInstance`s, the three registers are fabric flip-flops);
+* `Buffer.elaborate` on a `DifferentialPort` follows the vendor-neutral code of `lib/io.py` (no platform
+  `get_io_buffer`; `build/plat.py` defines none): an **input** buffer instantiates one cell on the `p` half and
+  none on the `n` half; a driving buffer adds an output cell on the `n` half carrying `~o_inv`;
 * `emit_io_use`: the `ionet_src_loc` table.
 
 Core Lean only (this file is compiled into the native driver).
@@ -459,6 +464,30 @@ def Buffer.diff (bdir : Dir) (p : DiffPort β) (o : Nat) (oe : Bool) (pad : Nat)
   | .i => ([⟨p.p, .i, none, none⟩], some (fromInv pad))
   | .o => ([⟨p.p, .o, some oInv, some oe⟩, ⟨p.n, .o, some (notBits w oInv), some oe⟩], none)
   | .io => ([⟨p.p, .io, some oInv, some oe⟩, ⟨p.n, .o, some (notBits w oInv), some oe⟩], some (fromInv pad))
+
+/-! ## `FFBuffer.elaborate` on a real port -/
+
+/-- `Buffer(direction, port).elaborate` for one real port, as a function of the buffer's `o`, `oe` and of the
+value on the pads: `Buffer.single bdir p` or `Buffer.diff bdir p` -/
+abbrev RealBuf (β : Type) := Nat → Bool → Nat → List (IOBCell β) × Option Nat
+
+/-- what `FFBuffer(direction, port)` shows: the cells of the inner `Buffer` (there are no others), driven from
+`o_ff` / `oe_ff`, and `self.i.eq(i_ff)` -/
+def FFBuffer.realOut (inner : RealBuf β) (bdir : Dir) (s : FFState) (pad : Nat) : List (IOBCell β) × Option Nat :=
+  ((inner s.oFf s.oeFf pad).1, if bdir = .o then none else some s.iFf)
+
+/-- clock edges, as in `FFBuffer.step`; `e.x.pi` is the value on the pads -/
+def FFBuffer.realStep (inner : RealBuf β) (s : FFState) (e : FFEvent) : FFState :=
+  { iFf := if e.tickI then (inner s.oFf s.oeFf e.x.pi).2.getD s.iFf else s.iFf
+    oFf := if e.tickO then e.x.o else s.oFf
+    oeFf := if e.tickO then e.x.oe else s.oeFf }
+
+/-- observations after each event (inputs and pad values still applied) -/
+def FFBuffer.realRun (inner : RealBuf β) (bdir : Dir) : FFState → List FFEvent → List (List (IOBCell β) × Option Nat)
+  | _, [] => []
+  | s, e :: es =>
+    let s' := FFBuffer.realStep inner s e
+    FFBuffer.realOut inner bdir s' e.x.pi :: FFBuffer.realRun inner bdir s' es
 
 /-- `emit_io_use`: every net of the value is looked up in `ionet_src_loc`; a net that is already
 there raises `DriverConflict`, otherwise it is entered -/
